@@ -98,15 +98,21 @@ class Pool:
         self.eye = eye(mu0=0.1, mu1=0.9, s0=0.03, s1=0.05)
         self.tvec = np.arange(n, dtype=float) / 16e9
         self.arrays = []
+        self.bound = []      # (object, attribute, array) - the attribute must keep pointing at the very same array
         for nm in ("e", "e_clean", "x1", "x2", "u", "ppm_wave"):
             o = getattr(self, nm)
             self.arrays += [(nm + ".signal", o.signal)] + ([(nm + ".noise", o.noise)] if o.noise is not None else [])
+            self.bound += [(nm, o, "signal", o.signal), (nm, o, "noise", o.noise)]
+        for nm in ("cw", "cw_noisy"):
+            self.bound.append((nm, getattr(self, nm), "data", getattr(self, nm).data))
         self.arrays += [("bits", self.bits), ("ua", self.ua), ("cw", self.cw.data), ("cw_noisy", self.cw_noisy.data), ("tvec", self.tvec)]
         self.snap = [(n_, a.dtype.str, a.shape, a.tobytes()) for n_, a in self.arrays]
         for _, a in self.arrays:
             a.setflags(write=False)
 
     def verify(self, block):
+        for nm, o, attr, arr in self.bound:
+            check(getattr(o, attr) is arr, "argument-mutated", f"{block} re-bound {nm}.{attr} of a shared input object")
         for (n_, a), s in zip(self.arrays, self.snap):
             check((n_, a.dtype.str, a.shape, a.tobytes()) == s, "argument-mutated", f"{block} changed shared input {n_}")
 
@@ -167,11 +173,12 @@ BLOCKS = {
     "ppm.DSP_soft": (lambda p: PPM.DSP(p.ppm_wave, 4, "soft"), False, False),
     "ppm.DSP_hard": (lambda p: PPM.DSP(p.ppm_wave, 4, "hard", 0.5), True, False),
     "ppm.BER_est": (lambda p: PPM.BER_analizer("estimator", eye_obj=p.eye, M=4, decision="hard"), False, False),
-    "lab.SYNC": (lambda p: LAB.SYNC(electrical_signal(np.tile(np.kron(p.bits, np.ones(gv.sps)), 3)), p.bits), False, False),
+    "lab.SYNC": (lambda p: LAB.SYNC(electrical_signal(np.roll(np.tile(np.kron(p.bits, np.ones(gv.sps)), 3), 5)), p.bits), False, False),
     "utils": (lambda p: (U.db(p.ua ** 2 + 1), U.Q(p.ua), U.dec2bin(37, 8), U.str2array("1 2;3 4"), U.shortest_int(p.ua, 50), U.rcos(p.ua, 0.5, 1.0), U.si(gv.fs, "Hz")), False, False),
     "typing": (lambda p: (p.x2("w", True), p.e[3:17:2], p.x1 + p.x1, p.e * 2.0, p.e > 0.5, p.x2.power(), p.e.w(True), p.x1.copy()), False, False),
 }
 SLOW = {"GET_EYE", "ook.DSP", "FBG", "FIBER_nl"}
+MIN_SPS = {"DAC_gauss": 2, "GET_EYE": 4, "ook.DSP": 4}   # documented / structural domain of the block (C05: Gaussian DAC for sps >= 2; eye needs samples per slot)
 BLOCK_NAMES = sorted(BLOCKS)
 
 
@@ -291,6 +298,8 @@ class Interp:
 
     def call(self, s):
         name = s["block"]
+        if gv.sps < MIN_SPS.get(name, 1):
+            name = "DAC_nrz"
         fn, stochastic, rng_sensitive = BLOCKS[name]
         p = self.pool(s["pool"])
         before = gv_snapshot()
@@ -405,5 +414,5 @@ def machine(ctx):
     return GVMachine
 
 
-PARTS = [Part("history", eval_history, kind="machine", machine=machine, quick=40, thorough=250, shards=16, quick_shards=8, steps_quick=30, steps_thorough=60,
+PARTS = [Part("history", eval_history, kind="machine", machine=machine, quick=120, thorough=400, shards=16, quick_shards=8, steps_quick=30, steps_thorough=60,
               rule="see RULE")]
